@@ -45,10 +45,10 @@ CHECKS = {
     text="create_candidate_cycles proved against the tree tables (small caps); soundness of whole collections, nesting and sufficiency are a bounded stand-in: all labelled graphs n<=6 (unit + seeded weights), all weightings n<=3/4, tie-heavy families, seeded random graphs.",
     note="Exact-domain weights only; builders are Boost.Graph templates outside CBMC's reach."),
  "C16": dict(
-    engine="E1+E3", category="other", design_ref="DESIGN.md 4/C16, 3 (K15,K15a)",
-    technique="CBMC DFCC loop contract with ghost edge on the extracted numbering loop against spanning_forest's contract (proved for m<=16) + bounded enforcement of the whole-class contract with union-find",
-    text="Numbering loop proved (bijection, inverse lookups, off-forest edges numbered first, writes confined to reverse_index[0..m)) for m<=16 - the cap stems from ghost prefix counts, the code's loop is closed by its contract. Whole class and spanning_forest bounded on all labelled graphs n<=6 etc.",
-    note="Assumes spanning_forest's contract inside the proof (enforced only bounded), and the std::map/std::vector/boost::edges bindings of the extraction."),
+    engine="E1+E3", category="other", design_ref="DESIGN.md 4/C16, 3 (K15,K15a), 10.7",
+    technique="CBMC DFCC loop contracts: ghost edge on the extracted numbering loop (m<=16) and three nested loop contracts on the extracted detail::spanning_forest with ghost vertex / adjacency slot / queue and output positions (n<=5, thorough 8; 3000 obligations in 16 concurrent property groups) + bounded enforcement of the whole-class contract with union-find",
+    text="Numbering loop proved (bijection, inverse lookups, off-forest edges numbered first, writes confined to reverse_index[0..m)) for m<=16. spanning_forest proved: n-c edges emitted, each joining an earlier-discovered vertex to the vertex it discovers (never a root, discovered once), every vertex reached, adjacent vertices share a label with exactly one root - the component/forest clauses follow by the lemma of DESIGN 10.7 (informal). Filling of the vertex set bounded (n<=24). Whole class and spanning_forest bounded on all labelled graphs n<=6 etc.",
+    note="Assumed: contracts of std::unordered_set / std::queue / boost::out_edges, the std::map/std::vector/boost::edges bindings of the extraction, the informal lemma of DESIGN 10.7."),
  "C05": dict(
     engine="E1+E3", category="other", design_ref="DESIGN.md 4/C05, 3 (K18)",
     technique="CBMC DFCC nested loop contracts on the extracted translation loop of run() (caller's edges, caller's weights) + bounded enforcement of the approximate entry points' contract (basis of the caller's graph by descriptor identity, returned weight = caller weights) on the real templates",
